@@ -5,6 +5,7 @@ import (
 	"go/token"
 	"go/types"
 	"sort"
+	"strings"
 
 	"golang.org/x/tools/go/ssa"
 
@@ -249,38 +250,56 @@ func runC15(c *engine.Ctx) {
 		{"server/proxy.BaseProxy.handleUserTCPConnection", "NewUserConn", "BaseProxy.GetWorkConnFromPool", p.MethodObj("server/proxy", "BaseProxy", "GetWorkConnFromPool"), false},
 	}
 	n = 0
-	for _, s := range sites {
-		f := fn(c, s.fn)
-		gateObj := p.MethodObj("pkg/plugin/server", "Manager", s.gate)
-		if f == nil || gateObj == nil || s.actionObj == nil {
-			c.Missing(s.fn+">"+s.gate, "call site anchors not found")
+	for _, s0 := range sites {
+		gateObj := p.MethodObj("pkg/plugin/server", "Manager", s0.gate)
+		if gateObj == nil || s0.actionObj == nil {
+			c.Missing(s0.fn+">"+s0.gate, "call site anchors not found")
 			continue
 		}
-		actions := engine.CallsTo(f, s.actionObj)
-		if len(actions) == 0 || len(engine.CallsTo(f, gateObj)) == 0 {
-			c.Undecide(s.fn+">"+s.gate, f.Pos(), "%s no longer calls the %s chain and %s together", s.fn, s.gate, s.action)
+		// the call site is whichever function consults the gate (found by the call, not by name: handlers get split
+		// and renamed); the gated action must be in that same function
+		var hosts []*ssa.Function
+		for _, g := range p.RepoFuncs() {
+			if g.Pkg != nil && strings.HasSuffix(g.Pkg.Pkg.Path(), "/pkg/plugin/server") {
+				continue
+			}
+			if len(engine.CallsTo(g, gateObj)) > 0 {
+				hosts = append(hosts, g)
+			}
+		}
+		if len(hosts) == 0 {
+			c.Undecide(s0.fn+">"+s0.gate, token.NoPos, "nothing consults the %s plugin chain any more", s0.gate)
 			continue
 		}
-		for _, act := range actions {
-			n++
-			key := s.fn + ">" + s.gate
-			okp := c.AllPaths(key, engine.PathCheck{Fn: f, Sink: engine.Is(act), Pred: func(st *engine.PathState) string {
-				if v, k := st.IsNil(extractOf(gateObj, 1)); !(k && v) {
-					return fmt.Sprintf("%s is reached on a path where the %s plugin chain did not return nil (a rejecting or failing plugin is ignored)", s.action, s.gate)
-				}
-				return ""
-			}}, "%s only after the %s chain returned nil", s.action, s.gate)
-			if okp && s.useContent {
-				args := engine.CallArgs(act)
-				src := engine.Provenance(args[len(args)-1], engine.ProvOpts{NoArgs: true})
-				// the message argument is the last one for VerifyX/RegisterProxy; RegisterControl has (conn, msg, internal)
-				for _, a := range args[1:] {
-					if engine.IsNamed(a.Type(), engine.ModPath+"/pkg/msg", "Login") {
-						src = engine.Provenance(a, engine.ProvOpts{NoArgs: true})
+		for _, f := range hosts {
+			s := s0
+			s.fn = p.FuncName(f)
+			actions := engine.CallsTo(f, s.actionObj)
+			if len(actions) == 0 {
+				c.Undecide(s.fn+">"+s.gate, f.Pos(), "%s no longer calls the %s chain and %s together", s.fn, s.gate, s.action)
+				continue
+			}
+			for _, act := range actions {
+				n++
+				key := s.fn + ">" + s.gate
+				okp := c.AllPaths(key, engine.PathCheck{Fn: f, Sink: engine.Is(act), Pred: func(st *engine.PathState) string {
+					if v, k := st.IsNil(extractOf(gateObj, 1)); !(k && v) {
+						return fmt.Sprintf("%s is reached on a path where the %s plugin chain did not return nil (a rejecting or failing plugin is ignored)", s.action, s.gate)
 					}
+					return ""
+				}}, "%s only after the %s chain returned nil", s.action, s.gate)
+				if okp && s.useContent {
+					args := engine.CallArgs(act)
+					src := engine.Provenance(args[len(args)-1], engine.ProvOpts{NoArgs: true})
+					// the message argument is the last one for VerifyX/RegisterProxy; RegisterControl has (conn, msg, internal)
+					for _, a := range args[1:] {
+						if engine.IsNamed(a.Type(), engine.ModPath+"/pkg/msg", "Login") {
+							src = engine.Provenance(a, engine.ProvOpts{NoArgs: true})
+						}
+					}
+					c.Check(src.HasCall(gateObj), key+">content", act.Pos(), len(src.Values), []string{"message argument: " + src.Summary()},
+						"%s acts on the content returned by the %s chain (plugin edits are honoured)", s.action, s.gate)
 				}
-				c.Check(src.HasCall(gateObj), key+">content", act.Pos(), len(src.Values), []string{"message argument: " + src.Summary()},
-					"%s acts on the content returned by the %s chain (plugin edits are honoured)", s.action, s.gate)
 			}
 		}
 	}
